@@ -7,3 +7,7 @@ package p2pmsg
 //@ func NewSignedEonPublicKey
 //@   ensures ret1 == nil ==> (ret0 != nil && fresh(ret0) && ret0.InstanceId == instanceID && ret0.PublicKey == eonPublicKey && ret0.ActivationBlock == activationBlock && ret0.KeyperConfigIndex == keyperConfigIndex && ret0.Eon == eon)
 //@   ensures ret1 != nil ==> ret0 == nil
+//@   // the only reason not to produce the message is a failing signature (a constructor that refuses certain field
+//@   // values would make those eon keys unpublishable)
+//@   event signFail(0) when ret1 != nil
+//@   ensures ret1 != nil ==> evcount("signFail") == old(evcount("signFail")) + 1
